@@ -421,7 +421,17 @@ class Program(BlockBase):  # R201
         comments = content != []
         try:
             while True:
-                obj = Program_Unit(reader)
+                try:
+                    obj = Program_Unit(reader)
+                except NoMatchError:
+                    # Found a syntax error for this rule. Now look to match
+                    # (via Main_Program0) with a program containing no
+                    # program statement as this is optional in Fortran. Any
+                    # program units already matched are kept and matching
+                    # continues after the main program.
+                    obj = Main_Program0(reader)
+                    if obj is None:
+                        return None
                 if obj:
                     # obj could be None if there are only Comments
                     content.append(obj)
@@ -430,12 +440,6 @@ class Program(BlockBase):  # R201
                 next_line = reader.next()
                 # put the line back in the case where there are more lines
                 reader.put_item(next_line)
-        except NoMatchError:
-            # Found a syntax error for this rule. Now look to match
-            # (via Main_Program0) with a program containing no program
-            # statement as this is optional in Fortran.
-            result = BlockBase.match(Main_Program0, [], None, reader)
-            return result
         except StopIteration:
             # Reader has no more lines.
             pass
